@@ -3,7 +3,9 @@
 use std::env;
 use vaporetto::{CharacterBoundary, Sentence};
 
+mod c01;
 mod c02;
+mod gen;
 mod c05;
 mod c07;
 mod c15;
@@ -18,6 +20,11 @@ fn main() {
         std::process::exit(2);
     }
     let found = match (args[1].as_str(), args[2].as_str()) {
+        ("c01", "search") => c01::search("c01"),
+        ("c06", "search") => c01::search("c06"),
+        ("c14", "search") => c01::search("c14"),
+        ("c01", "replay") | ("c06", "replay") | ("c14", "replay") | ("c13", "replay") => c01::replay(&args[3]),
+        ("c13", "dump") => { c01::dump(); None }
         ("c02", "search") => c02::search(),
         ("c02", "replay") => c02::replay(&args[3]),
         ("c16", "search") => c16::search(),
